@@ -643,3 +643,60 @@ Qed.
 Example ex_partial_hyp : sizes_from_disk (p0 [ds_ok; ds_ok] [9; 6]) /\ fires TShortParity (p0 [ds_ok; ds_ok] [9; 6]) = true
   /\ overridden TShortParity o0 = false.
 Proof. vm_compute. auto. Qed.
+
+(* ------------------------------------------------------------------------------------------- the lock FILE
+   The lock is a flock on the INODE behind <first content>.lock.  `lock_excludes` above speaks about one lock object;
+   that is justified only while the path keeps naming the same inode.  Model with the path made explicit: *)
+Record lstate := mkLS { ls_path : option N;            (* inode the path names, None = no such file *)
+                        ls_next : N;                   (* next fresh inode *)
+                        ls_holders : list (N * N) }.   (* (command, inode it holds the flock on) *)
+Inductive fev := FTry (id : N) | FFinish (id : N) | FUnlink.
+
+Definition fstep (s : lstate) (e : fev) : lstate :=
+  match e with
+  | FTry id =>
+      let ino := match ls_path s with Some i => i | None => ls_next s end in
+      let nxt := match ls_path s with Some _ => ls_next s | None => ls_next s + 1 end in
+      if existsb (fun h => N.eqb (snd h) ino) (ls_holders s)
+      then mkLS (Some ino) nxt (ls_holders s)                                   (* EWOULDBLOCK: refused *)
+      else mkLS (Some ino) nxt ((id, ino) :: ls_holders s)
+  | FFinish id => mkLS (ls_path s) (ls_next s) (filter (fun h => negb (N.eqb (fst h) id)) (ls_holders s))
+  | FUnlink => mkLS None (ls_next s) (ls_holders s)
+  end.
+Fixpoint frun (s : lstate) (tr : list fev) : lstate := match tr with [] => s | e :: t => frun (fstep s e) t end.
+Definition ls0 : lstate := mkLS None 0 [].
+Definition no_unlink (tr : list fev) : Prop := ~ In FUnlink tr.
+
+Definition linv (s : lstate) : Prop :=
+  (length (ls_holders s) <= 1)%nat /\ forall h, In h (ls_holders s) -> ls_path s = Some (snd h).
+
+Lemma filter_length_le : forall (A : Type) (f : A -> bool) l, (length (filter f l) <= length l)%nat.
+Proof. induction l; simpl; [lia | destruct (f a); simpl; lia]. Qed.
+
+Lemma linv_step : forall s e, e <> FUnlink -> linv s -> linv (fstep s e).
+Proof.
+  intros s e NE [L P]. destruct e as [id | id |]; [| | congruence]; unfold fstep.
+  - destruct (ls_holders s) as [| h t] eqn:H.
+    + simpl. split; [simpl; lia |]. simpl. intros h [E | []]. subst. reflexivity.
+    + assert (T : t = []) by (destruct t; [reflexivity | simpl in L; lia]). subst t.
+      pose proof (P h (or_introl eq_refl)) as Ph. rewrite Ph. simpl. rewrite N.eqb_refl. simpl.
+      split; [simpl; lia |]. simpl. intros h' [E | []]. subst. reflexivity.
+  - split; simpl.
+    + pose proof (filter_length_le _ (fun h => negb (N.eqb (fst h) id)) (ls_holders s)). lia.
+    + intros h Hin. apply filter_In in Hin. apply P. tauto.
+Qed.
+
+Lemma lock_file_excludes : forall tr s, no_unlink tr -> linv s -> (length (ls_holders (frun s tr)) <= 1)%nat.
+Proof.
+  induction tr as [| e t IH]; simpl; intros s NU I; [exact (proj1 I) |].
+  apply IH; [intros H; apply NU; right; exact H |].
+  apply linv_step; [intros E; apply NU; left; exact E | exact I].
+Qed.
+
+Lemma linv_ls0 : linv ls0.
+Proof. split; simpl; [lia | tauto]. Qed.
+
+(* ... and it is necessary: a command that removes the path after releasing lets two commands run together *)
+Lemma lock_file_unlink_refuted :
+  length (ls_holders (frun ls0 [FTry 1; FFinish 1; FTry 2; FUnlink; FTry 3])) = 2%nat.
+Proof. vm_compute. reflexivity. Qed.
